@@ -115,10 +115,15 @@ def guard(H):
             if res is not None:
                 H.prove(H.close(tuple(res), (1, 0, 0, 1, 0, 0)), "guard.identical_shapes_give_identity")
             return
+    # "an exact translation of a shape is always found": the translation candidate is tried before any bail-out (e.g. the one for
+    # shapes without an edge of significant x extent), and when it verifies a transform is reported
+    H.prove(bool(tries), "guard.translation_is_tried_before_any_bail_out")
     if tries:
         aff0, a0, b0, t0, r0 = tries[0]
         (m1x, m1y), (m2x, m2y) = _first_move_vals["friendly(s1)"], _first_move_vals["friendly(s2)"]
         H.prove(And(H.close(tuple(aff0), (1, 0, 0, 1, m2x - m1x, m2y - m1y)), a0 is F1, b0 is F2), "guard.first_candidate_is_translation_between_start_points")
+        if H.truth(r0):
+            H.prove(e is None and res is not None, "guard.verified_translation_is_reported", detail=repr(e))
     if e is not None:
         # the only arithmetic hazard in the search is the y-scale quotient
         H.prove(isinstance(e, ZeroDivisionError), "guard.only_ZeroDivisionError_may_escape", detail=repr(e))
